@@ -12,6 +12,11 @@ pub mod c08;
 pub mod c09;
 pub mod c10;
 pub mod c15;
+pub mod c16;
+pub mod c17;
+pub mod c18;
+#[cfg(feature = "all")]
+pub mod c19;
 pub mod c11;
 pub mod c12;
 pub mod c13;
@@ -27,6 +32,11 @@ pub fn run(ctx: &'static Ctx) {
         "C06" => c06::run(ctx),
         "C07" => c07::run(ctx),
         "C15" => c15::run(ctx),
+        "C16" => c16::run(ctx),
+        "C17" => c17::run(ctx),
+        "C18" => c18::run(ctx),
+        #[cfg(feature = "all")]
+        "C19" => c19::run(ctx),
         "C08" => c08::run(ctx),
         "C09" => c09::run(ctx),
         "C10" => c10::run(ctx),
@@ -65,6 +75,10 @@ pub fn replay(prop: &str, case: &Value) -> Verdict {
         "C06" => c06::replay(case),
         "C07" => c07::replay(case),
         "C15" => c15::replay(case),
+        "C17" => c17::replay(case),
+        "C18" => c18::replay(case),
+        #[cfg(feature = "all")]
+        "C19" => c19::replay(case),
         "C08" => c08::replay(case),
         "C09" => c09::replay(case),
         "C10" => c10::replay(case),
